@@ -387,6 +387,10 @@ type caseSpec struct {
 	snpOptKind int
 	attFmt     string
 	rootDER    bool
+	// rootWS: with a DER root file, use a re-issue of the genuine root (same key, subject, window; a
+	// fresh PSS signature) whose DER encoding ends in an ASCII white-space byte: a root file is binary
+	// and may end in any byte.
+	rootWS bool
 	// pools, when non-nil, makes the cases of one history share their *x509.CertPool objects: one
 	// pool per (root kind, leaf), as a long-lived relying party keeps one pool for many verifications.
 	pools map[string]*x509.CertPool
@@ -405,6 +409,13 @@ func checkCase(t ev.TB, name string, cs caseSpec, w *world) (accepted bool) {
 		// before verification starts); use the foreign root instead so the case stays meaningful.
 		rootKind = "foreign-same-subject"
 		roots, pool = rootSet(rootKind, w, leaf)
+	}
+	if cs.rootWS && cs.rootDER && isCLI(entry) && len(roots) == 1 && roots[0] == w.root.cert {
+		if r := w.rootEndingInWhitespace(); r != nil {
+			roots = []*x509.Certificate{r}
+			pool = pki.Pool(roots)
+			ev.Class(name, "cli-root-file:DER-ending-in-whitespace")
+		}
 	}
 	if cs.pools != nil && pool != nil {
 		fp := sha256.Sum256(leaf.Raw)
@@ -530,6 +541,7 @@ func TestAuthenticity(t *testing.T) {
 		cs.snpOptKind = uniform(t, "snpOpts", 4)
 		cs.attFmt = pick(t, "attFmt", []string{"tpm", "snpproto", "raw"})
 		cs.rootDER = uniform(t, "rootDER", 3) == 0
+		cs.rootWS = cs.rootDER && uniform(t, "rootWS", 2) == 0
 		checkCase(t, name, cs, w)
 	})
 }
